@@ -160,8 +160,7 @@ def main(tier, seed):
         for k, v in mx.items():
             rep.counters[k] = max(rep.counters[k], v)
     c = rep.counters
-    if not c["histories.idnkit"] or not c["addresses.compared"] or c["ctx.creates"] == 0:
-        raise core.Inconclusive("a back end produced no observations")
+    rep.require(not (not c["histories.idnkit"] or not c["addresses.compared"] or c["ctx.creates"] == 0), "a back end produced no observations")
     rep.assumptions += ["real libidn / idnkit are absent: their source sets run against adapters onto libidn2 ('given equivalent "
                         "IDN conversions')", "legal histories: eav_free is followed by eav_init before reuse"]
     return rep.finish(c["addresses.compared"] * 3 + c["policy.rows"] * 2048 + sum(c["histories.%s" % b] for b in BACKENDS),
